@@ -50,7 +50,7 @@ class FileDumper(DumperBase):
                 file_format = self.forced_format
             else:
                 _, file_format = os.path.splitext(resource.source)
-                file_format = file_format[1:]
+                file_format = file_format[1:].lower()
             file_formatter = self.custom_formatters.get(file_format) or {
                 'csv': CSVFormat,
                 'json': JSONFormat,
@@ -90,7 +90,14 @@ class FileDumper(DumperBase):
 
         temp_file = UmaskNamedTemporaryFile(mode='w+', delete=False, encoding='utf-8')
         indent = 2 if self.pretty_descriptor else None
-        json.dump(self.datapackage.descriptor, temp_file, indent=indent, sort_keys=True, ensure_ascii=False)
+        descriptor = self.datapackage.descriptor
+        if not self.force_format:
+            # Resources with unknown extensions are discarded from the dump
+            descriptor = dict(descriptor, resources=[
+                resource for resource in descriptor.get('resources', [])
+                if resource['name'] in self.file_formatters
+            ])
+        json.dump(descriptor, temp_file, indent=indent, sort_keys=True, ensure_ascii=False)
         temp_file_name = temp_file.name
         filesize = temp_file.tell()
         temp_file.close()
